@@ -17,6 +17,7 @@ use serde::Deserialize;
 use serde_json::{Value, json};
 use std::borrow::Cow;
 use std::collections::{BTreeMap, HashSet};
+use vcore::capped::Capped;
 use vcore::errs::{kind, line_col};
 use vcore::obs::{catch, panic_site};
 use vcore::rdr::{Chunking, CutReader, adversarial_positions};
@@ -288,14 +289,14 @@ fn compare_one(
         Err(p) if p.contains(vcore::rdr::RUNAWAY_MSG) => {
             // from_str returned, the reader path keeps polling a finished reader forever
             l.add("reader_runaway_after_end_of_input", 1);
-            run.violation(
+            run.violation_capped(
                 &format!("C09:reader-path-never-returns:{}", runaway_class(text)),
                 case(),
                 format!("from_str on BOM-less text: {} | {}: {p}", show_c(reference), e.name()),
             );
             return true;
         }
-        Err(p) => run.violation(&format!("C09:panic:{}", panic_site(&p)), case(), p),
+        Err(p) => run.violation_capped(&format!("C09:panic:{}", panic_site(&p)), case(), p),
         Ok((o, data_calls)) => {
             let c = canon(&o);
             if let Canon::Err(k, _) = &c
@@ -312,7 +313,7 @@ fn compare_one(
                     } else {
                         format!("C09:{}:{}{}{}", e.name(), d, if bom { ":bom" } else { "" }, rare_features(base))
                     };
-                    run.violation(
+                    run.violation_capped(
                         &sig,
                         case(),
                         format!("from_str on BOM-less text: {} | {}: {}", show_c(reference), e.name(), show_c(&c)),
@@ -361,7 +362,7 @@ fn check_text(
     let reference = match catch(|| (t.from_str)(base, opts(optv))) {
         Ok(o) => canon(&o),
         Err(p) => {
-            run.violation(
+            run.violation_capped(
                 &format!("C09:panic:{}", panic_site(&p)),
                 json!({"section": section, "text": base, "bom": false, "target": t.name, "opts": optv, "entry": "from_str",
                        "schedule": "-", "chunking": "whole"}),
@@ -656,7 +657,7 @@ fn check_borrow(run: &Run, l: &mut Local, shape: Shape, base: &str, bom: bool, c
     let r = match borrow_run(shape, &text, ch) {
         Ok(r) => r,
         Err(p) => {
-            run.violation(&format!("C09:panic:{}", panic_site(&p)), case(), p);
+            run.violation_capped(&format!("C09:panic:{}", panic_site(&p)), case(), p);
             return;
         }
     };
@@ -670,9 +671,9 @@ fn check_borrow(run: &Run, l: &mut Local, shape: Shape, base: &str, bom: bool, c
             let cs: Vec<&String> = c.iter().map(|(s, _)| s).collect();
             let ws: Vec<&String> = w.iter().collect();
             if cs != ws {
-                run.violation(&format!("C09:borrow:cow-differs-from-string:value{sfx}"), case(), format!("String: {w:?} | Cow: {c:?}"));
+                run.violation_capped(&format!("C09:borrow:cow-differs-from-string:value{sfx}"), case(), format!("String: {w:?} | Cow: {c:?}"));
             } else if c.iter().any(|(_, b)| *b == Some(false)) {
-                run.violation(&format!("C09:borrow:cow-borrowed-outside-input{sfx}"), case(), format!("Cow: {c:?}"));
+                run.violation_capped(&format!("C09:borrow:cow-borrowed-outside-input{sfx}"), case(), format!("Cow: {c:?}"));
             } else {
                 l.add("borrow_cow_equals_string", 1);
                 l.add("borrow_cow_values_borrowed", c.iter().filter(|(_, b)| b.is_some()).count() as u64);
@@ -681,7 +682,7 @@ fn check_borrow(run: &Run, l: &mut Local, shape: Shape, base: &str, bom: bool, c
         }
         (Err(a), Err(b)) => {
             if !same_err(a, b) {
-                run.violation(
+                run.violation_capped(
                     &format!("C09:borrow:cow-differs-from-string:error:{}-vs-{}{sfx}", kind(a), kind(b)),
                     case(),
                     format!("String: {} @ {:?} | Cow: {} @ {:?}", kind(a), line_col(a), kind(b), line_col(b)),
@@ -690,7 +691,7 @@ fn check_borrow(run: &Run, l: &mut Local, shape: Shape, base: &str, bom: bool, c
                 l.add("borrow_cow_equals_string_err", 1);
             }
         }
-        (a, b) => run.violation(
+        (a, b) => run.violation_capped(
             &format!("C09:borrow:cow-differs-from-string:{}{sfx}", if a.is_ok() { "ok-vs-err" } else { "err-vs-ok" }),
             case(),
             format!("String: {:?} | Cow: {:?}", a.as_ref().map_err(kind), b.as_ref().map_err(kind)),
@@ -705,7 +706,7 @@ fn check_borrow(run: &Run, l: &mut Local, shape: Shape, base: &str, bom: bool, c
             _ => false,
         };
         if !same {
-            run.violation(
+            run.violation_capped(
                 &format!("C09:borrow:{name}-differs-from-from_str{sfx}"),
                 case(),
                 format!("from_str: {:?} | {name}: {:?}", r.borrowed.as_ref().map_err(kind), other.as_ref().map_err(kind)),
@@ -715,15 +716,15 @@ fn check_borrow(run: &Run, l: &mut Local, shape: Shape, base: &str, bom: bool, c
 
     // --- &str vs String
     match (&r.owned, &r.borrowed) {
-        (Err(_), Ok(b)) => run.violation(&format!("C09:borrow:str-ok-but-string-err{sfx}"), case(), format!("&str: {b:?}")),
+        (Err(_), Ok(b)) => run.violation_capped(&format!("C09:borrow:str-ok-but-string-err{sfx}"), case(), format!("&str: {b:?}")),
         (Err(_), Err(_)) => l.add("borrow_both_err", 1),
         (Ok(w), Ok(b)) => {
             let bs: Vec<&String> = b.iter().map(|(s, _)| s).collect();
             let ws: Vec<&String> = w.iter().collect();
             if bs != ws {
-                run.violation(&format!("C09:borrow:str-differs-from-string{sfx}"), case(), format!("String: {w:?} | &str: {b:?}"));
+                run.violation_capped(&format!("C09:borrow:str-differs-from-string{sfx}"), case(), format!("String: {w:?} | &str: {b:?}"));
             } else if b.iter().any(|(_, inr)| !*inr) {
-                run.violation(&format!("C09:borrow:str-not-a-subslice-of-input{sfx}"), case(), format!("&str: {b:?}"));
+                run.violation_capped(&format!("C09:borrow:str-not-a-subslice-of-input{sfx}"), case(), format!("&str: {b:?}"));
             } else {
                 l.add("borrow_str_ok_subslice_and_equal", 1);
                 l.add("borrow_str_values_checked", b.len() as u64);
@@ -731,7 +732,7 @@ fn check_borrow(run: &Run, l: &mut Local, shape: Shape, base: &str, bom: bool, c
                     && i.classes.iter().any(|c| *c == SClass::NotVerbatim)
                 {
                     // cannot happen together with the sub-slice check; kept as an explicit monitor
-                    run.violation(&format!("C09:borrow:must-fail-accepted{sfx}"), case(), format!("&str: {b:?}"));
+                    run.violation_capped(&format!("C09:borrow:must-fail-accepted{sfx}"), case(), format!("&str: {b:?}"));
                 }
             }
         }
@@ -746,13 +747,13 @@ fn check_borrow(run: &Run, l: &mut Local, shape: Shape, base: &str, bom: bool, c
                 }
                 Some(i) => {
                     if k != "CannotBorrowTransformedString" {
-                        run.violation(
+                        run.violation_capped(
                             &format!("C09:borrow:wrong-error-kind:{k}{sfx}"),
                             case(),
                             format!("String: {w:?} | &str: Err({k}) {}", e.without_snippet()),
                         );
                     } else if !i.classes.is_empty() && i.classes.iter().all(|c| *c == SClass::MustBorrow) {
-                        run.violation(
+                        run.violation_capped(
                             &format!("C09:borrow:must-borrow-refused{sfx}"),
                             case(),
                             format!("every scalar is verbatim single-line plain/quoted, String: {w:?} | &str: Err({k})"),
@@ -775,7 +776,7 @@ fn check_borrow(run: &Run, l: &mut Local, shape: Shape, base: &str, bom: bool, c
 
     // --- reader never lends
     match &r.reader_borrowed {
-        Ok(n) if *n > 0 => run.violation(
+        Ok(n) if *n > 0 => run.violation_capped(
             &format!("C09:borrow:reader-lent{sfx}"),
             case(),
             format!("with_deserializer_from_reader produced {n} borrowed &str value(s)"),
@@ -814,7 +815,7 @@ fn replay(run: &Run, case: &Value) {
     let reference = match catch(|| (t.from_str)(&base, opts(optv))) {
         Ok(o) => canon(&o),
         Err(p) => {
-            run.violation(&format!("C09:panic:{}", panic_site(&p)), case.clone(), p);
+            run.violation_capped(&format!("C09:panic:{}", panic_site(&p)), case.clone(), p);
             return;
         }
     };
@@ -878,7 +879,7 @@ fn main() {
             let reference = match catch(|| (t.from_str)(base, opts(0))) {
                 Ok(o) => canon(&o),
                 Err(p) => {
-                    run.violation(&format!("C09:panic:{}", panic_site(&p)), json!({"section":"partitions","text":base,"bom":false,"target":t.name,"opts":0,"entry":"from_str","chunking":"whole"}), p);
+                    run.violation_capped(&format!("C09:panic:{}", panic_site(&p)), json!({"section":"partitions","text":base,"bom":false,"target":t.name,"opts":0,"entry":"from_str","chunking":"whole"}), p);
                     continue;
                 }
             };
@@ -991,7 +992,7 @@ fn main() {
         idx.truncate(n_harvest);
         idx
     };
-    let n_gen = tier.pick(12_000usize, 200_000usize);
+    let n_gen = tier.pick(30_000usize, 120_000usize);
     let n_items = n_gen + harvest_pick.len();
     par_range(if on(4) { n_items } else { 0 }, |i| {
         let mut rng = Rng::stream(run.seed, i as u64 ^ 0x9009);
@@ -1072,7 +1073,7 @@ fn main() {
                     run.count("unspecified/invalid-utf8", 1);
                     run.observe("invalid_utf8_outcomes(from_slice|from_reader)", &format!("{a:?}|{b:?}"));
                 }
-                Err(p) => run.violation(
+                Err(p) => run.violation_capped(
                     &format!("C09:panic:{}", panic_site(&p)),
                     json!({"section":"invalid-utf8","bytes": bad}),
                     p,
